@@ -19,11 +19,11 @@ func init() {
 	run.Register(&run.Check{
 		ID:    "C09",
 		Level: "exploration",
-		Rule: "cases: analysis results with every shape that stresses a formatter (multi-protocol multi-range port sets, All/No connections, address ranges on either side, {ingress-controller} lines, exposure entries of all selector shapes incl. expressions and named ports, unprotected workloads; diff entries of all four types with new/lost annotations on src, dst and both) - three families by index: NetworkPolicy worlds with exposure, NetworkPolicy/ANP worlds with Ingress/Route resources, world pairs for diff; " +
+		Rule: "cases: analysis results with every shape that stresses a formatter (multi-protocol multi-range port sets, All/No connections, address ranges on either side, {ingress-controller} lines, exposure entries of all selector shapes incl. expressions and named ports, unprotected workloads; diff entries of all four types with new/lost annotations on src, dst and both) - the 212 manifest directories shipped with the repository (with and without exposure) first, then three generated families by index: NetworkPolicy worlds with exposure, NetworkPolicy/ANP worlds with Ingress/Route resources, world pairs for diff; " +
 			"each result is rendered by the real formatters in every format (list txt/json/csv/md/dot, diff txt/csv/md/dot) and parsed back by five + four small parsers of ours; oracle: the parsed sets of tuples (src, dst, connection denotation [+ named ports]; exposure: direction, workload, peer, connection; diff: type, src, dst, both connections, new/lost annotations) must be equal across formats and equal to the tuples read from the API result ([]Peer2PeerConnection, ExposedPeers(), ConnectivityDiff); order and whitespace are not compared; " +
 			"non-trivial = the result has at least 3 tuples including a partial (non-All) connection, and for exposure/diff families at least one exposure entry / one non-unchanged diff entry; distinct = world hash + family",
 		Assumptions:       []string{"connection strings are parsed back into (protocol, port) sets, so spelling conventions of ranges are not part of the oracle", "dot node ids `<pod>_in_<namespace>` are mapped back to the textual `<namespace>/[<pod>]` names; dot encodes address exposure lines only in the base relation", "the selector -> peer-name rendering of exposure entries is checked for consistency across formats and for mentioning every key and value of the API entry's selectors"},
-		NumCases:          func(tier string, _ int64) int { return tierN(tier, 600, 25000) },
+		NumCases:          func(tier string, _ int64) int { return tierN(tier, 600, 25000) + 2*nFix(tier) },
 		Run:               runC09,
 		MinNonTrivial:     150,
 		MinEffectiveShare: 0.6,
@@ -552,6 +552,23 @@ func compareSets(r *run.CaseResult, what string, want, got map[string]int, fmtA,
 func runC09(c *run.Ctx) {
 	r := c.Res
 	g := c.R("world")
+	if c.Idx < 2*nFix(c.Tier) { // the repository's own manifest directories, with and without exposure
+		dir := fixtureAt(c.Repo, c.Tier, c.Idx/2)
+		if dir == "" {
+			r.Discarded = "no fixtures"
+			return
+		}
+		exposure := c.Idx%2 == 1
+		r.Name = fmt.Sprintf("fixture %s exposure=%v", dir, exposure)
+		r.Hash = r.Name
+		r.Ev("fixture_results", 1)
+		want, partial, nExp, _, ok := c09JudgeList(c, dir, exposure)
+		if ok {
+			r.Effective = len(want) > 0
+			r.NonTrivial = len(want) >= 3 && partial && (!exposure || nExp > 0)
+		}
+		return
+	}
 	fam := c.Idx % 3
 	cfg := world.DefaultCfg()
 	cfg.NamedEgressIP = 0
@@ -583,177 +600,9 @@ func runC09(c *run.Ctx) {
 			r.Discarded = err.Error()
 			return
 		}
-		outs := map[string]string{}
-		var api *observe.ListResult
-		for _, f := range []string{"txt", "json", "csv", "md", "dot"} {
-			res := observe.List(dir, observe.ListOpts{Format: f, Exposure: exposure})
-			if res.Panic != "" {
-				r.Violate("c09.total", "c09.total:any:panic", "a result or an error", "panic: "+res.Panic, f)
-				return
-			}
-			if res.HasErr || res.OutErr != "" {
-				r.Ev("tool_errors", 1)
-				return
-			}
-			outs[f] = res.Output
-			if f == "txt" {
-				api = res
-			}
-		}
-		// tuples from the API result
-		want := []tuple{}
-		partial := false
-		for _, e := range api.Entries {
-			want = append(want, tuple{Section: "base", Src: e.Src, Dst: e.Dst, Conn: canonConn(e.Conn, nil)})
-			if !e.All {
-				partial = true
-				for _, rs := range e.Ranges {
-					if len(rs) > 1 {
-						r.Ev("multi_range_connections", 1)
-					}
-				}
-			}
-			if e.Src == "{ingress-controller}" {
-				r.Ev("ingress_controller_tuples", 1)
-			}
-		}
-		nExp := 0
-		type apiExp struct {
-			dir, wl string
-			e       *observe.XgressInfo
-			conn    string
-		}
-		apiEntries := []apiExp{}
-		wantUnprot := []string{}
-		if exposure {
-			for i := range api.Exposed {
-				ep := &api.Exposed[i]
-				for _, d := range []string{"ingress", "egress"} {
-					prot, ents := ep.IngressProtected, ep.Ingress
-					if d == "egress" {
-						prot, ents = ep.EgressProtected, ep.Egress
-					}
-					if !prot {
-						wantUnprot = append(wantUnprot, ep.Peer+" is not protected on "+strings.ToUpper(d[:1])+d[1:])
-						apiEntries = append(apiEntries, apiExp{d, ep.Peer, &observe.XgressInfo{EntireCluster: true}, refmodel.FullConn().String()})
-						continue
-					}
-					for k := range ents {
-						named := map[string][]string{}
-						for pr, ns := range ents[k].Named {
-							named[pr] = ns
-							r.Ev("tuples_with_named_ports", 1)
-						}
-						apiEntries = append(apiEntries, apiExp{d, ep.Peer, &ents[k], canonConn(ents[k].Conn, named)})
-					}
-				}
-			}
-			nExp = len(apiEntries)
-		}
-		wantBase := tupleSet(want, nil)
-		parsed := map[string][]tuple{}
-		var err error
-		var txtUnprot []string
-		parsed["txt"], txtUnprot, err = parseListTxt(outs["txt"])
-		if err == nil {
-			parsed["json"], err = parseListJSON(outs["json"], exposure)
-		}
-		if err == nil {
-			parsed["csv"], err = parseListCSV(outs["csv"])
-		}
-		if err == nil {
-			parsed["md"], err = parseListMD(outs["md"])
-		}
-		if err == nil {
-			parsed["dot"], _, err = parseListDot(outs["dot"])
-		}
-		if err != nil {
-			r.Violate("c09.parse", "c09.parse:list:unparsable", "every format parses back", err.Error(), "")
+		want, partial, nExp, outs, ok := c09JudgeList(c, dir, exposure)
+		if !ok {
 			return
-		}
-		isBase := func(t tuple) bool { return t.Section == "base" }
-		isExpSel := func(t tuple) bool { // exposure tuples other than the repeated address lines
-			if t.Section == "base" {
-				return false
-			}
-			other := t.Dst
-			if t.Section == "ingress" {
-				other = t.Src
-			}
-			_, _, isIP := world.ParseRange(strings.Split(other, ",")[0])
-			return !isIP
-		}
-		isExpIP := func(t tuple) bool { return t.Section != "base" && !isExpSel(t) }
-		for _, f := range []string{"txt", "json", "csv", "md", "dot"} {
-			r.Ev("formats_parsed", 1)
-			r.Ev("tuples_compared", int64(len(parsed[f])))
-			compareSets(r, "base relation", wantBase, tupleSet(parsed[f], isBase), "api", f, "list-base")
-			if exposure {
-				r.Ev("exposure_tuples_compared", int64(len(tupleSet(parsed[f], isExpSel))))
-				if f != "txt" {
-					compareSets(r, "exposure entries", tupleSet(parsed["txt"], isExpSel), tupleSet(parsed[f], isExpSel), "txt", f, "list-exposure")
-				}
-				if f != "txt" && f != "dot" {
-					compareSets(r, "exposure address lines", tupleSet(parsed["txt"], isExpIP), tupleSet(parsed[f], isExpIP), "txt", f, "list-exposure-ip")
-				}
-			}
-		}
-		if exposure {
-			// txt vs API: every API entry has a tuple with the same workload, direction, connection and a peer name that mentions its selectors
-			txtExp := []tuple{}
-			for _, t := range parsed["txt"] {
-				if isExpSel(t) {
-					txtExp = append(txtExp, t)
-				}
-			}
-			if len(txtExp) != len(apiEntries) {
-				r.Violate("c09.encode", "c09.encode:list-exposure:count", fmt.Sprintf("%d exposure entries (API)", len(apiEntries)), fmt.Sprintf("%d in txt", len(txtExp)), "")
-			}
-			used := make([]bool, len(txtExp))
-			for _, ae := range apiEntries {
-				found := false
-				for i, t := range txtExp {
-					if used[i] || t.Section != ae.dir || t.Conn != ae.conn {
-						continue
-					}
-					wl, other := t.Src, t.Dst
-					if ae.dir == "ingress" {
-						wl, other = t.Dst, t.Src
-					}
-					if wl != ae.wl {
-						continue
-					}
-					if ae.e.EntireCluster != (other == "entire-cluster") {
-						continue
-					}
-					ok := true
-					if !ae.e.EntireCluster {
-						ok = repPeerMatches(other, ae.e.NsSel, ae.e.PodSel)
-					}
-					if ok {
-						used[i], found = true, true
-						break
-					}
-				}
-				if !found {
-					r.Violate("c09.encode", "c09.encode:list-exposure:api-entry-missing", "an exposure line for API entry "+ae.wl+" "+ae.dir+" "+entryStr(ae.e)+" with connection "+ae.conn, "no such line in txt", "")
-					break
-				}
-			}
-			// address lines in the exposure sections must be lines of the base relation
-			for _, t := range parsed["txt"] {
-				if isExpIP(t) {
-					if wantBase[tuple{Section: "base", Src: t.Src, Dst: t.Dst, Conn: t.Conn}.key()] == 0 {
-						r.Violate("c09.encode", "c09.encode:list-exposure-ip:not-in-base", "address lines of the exposure section repeat base connections", t.key(), "")
-						break
-					}
-				}
-			}
-			sort.Strings(wantUnprot)
-			sort.Strings(txtUnprot)
-			if strings.Join(wantUnprot, "\n") != strings.Join(txtUnprot, "\n") {
-				r.Violate("c09.encode", "c09.encode:list-unprotected:differs", strings.Join(wantUnprot, " | "), strings.Join(txtUnprot, " | "), "")
-			}
 		}
 		r.Effective = len(want) > 0
 		r.NonTrivial = len(want) >= 3 && partial && (!exposure || nExp > 0)
@@ -947,4 +796,182 @@ func repPeerMatches(name string, nsSel, podSel *world.Sel) bool {
 		return false
 	}
 	return strings.Join(gotNs, ";") == strings.Join(selTokens(nsSel), ";") && strings.Join(gotPod, ";") == strings.Join(selTokens(podSel), ";")
+}
+
+// c09JudgeList renders one directory in all five list formats, parses them back and compares with the API result.
+func c09JudgeList(c *run.Ctx, dir string, exposure bool) ([]tuple, bool, int, map[string]string, bool) {
+	r := c.Res
+	outs := map[string]string{}
+	var api *observe.ListResult
+	for _, f := range []string{"txt", "json", "csv", "md", "dot"} {
+		res := observe.List(dir, observe.ListOpts{Format: f, Exposure: exposure})
+		if res.Panic != "" {
+			r.Violate("c09.total", "c09.total:any:panic", "a result or an error", "panic: "+res.Panic, f)
+			return nil, false, 0, nil, false
+		}
+		if res.HasErr || res.OutErr != "" {
+			r.Ev("tool_errors", 1)
+			return nil, false, 0, nil, false
+		}
+		outs[f] = res.Output
+		if f == "txt" {
+			api = res
+		}
+	}
+	// tuples from the API result
+	want := []tuple{}
+	partial := false
+	for _, e := range api.Entries {
+		want = append(want, tuple{Section: "base", Src: e.Src, Dst: e.Dst, Conn: canonConn(e.Conn, nil)})
+		if !e.All {
+			partial = true
+			for _, rs := range e.Ranges {
+				if len(rs) > 1 {
+					r.Ev("multi_range_connections", 1)
+				}
+			}
+		}
+		if e.Src == "{ingress-controller}" {
+			r.Ev("ingress_controller_tuples", 1)
+		}
+	}
+	nExp := 0
+	type apiExp struct {
+		dir, wl string
+		e       *observe.XgressInfo
+		conn    string
+	}
+	apiEntries := []apiExp{}
+	wantUnprot := []string{}
+	if exposure {
+		for i := range api.Exposed {
+			ep := &api.Exposed[i]
+			for _, d := range []string{"ingress", "egress"} {
+				prot, ents := ep.IngressProtected, ep.Ingress
+				if d == "egress" {
+					prot, ents = ep.EgressProtected, ep.Egress
+				}
+				if !prot {
+					wantUnprot = append(wantUnprot, ep.Peer+" is not protected on "+strings.ToUpper(d[:1])+d[1:])
+					apiEntries = append(apiEntries, apiExp{d, ep.Peer, &observe.XgressInfo{EntireCluster: true}, refmodel.FullConn().String()})
+					continue
+				}
+				for k := range ents {
+					named := map[string][]string{}
+					for pr, ns := range ents[k].Named {
+						named[pr] = ns
+						r.Ev("tuples_with_named_ports", 1)
+					}
+					apiEntries = append(apiEntries, apiExp{d, ep.Peer, &ents[k], canonConn(ents[k].Conn, named)})
+				}
+			}
+		}
+		nExp = len(apiEntries)
+	}
+	wantBase := tupleSet(want, nil)
+	parsed := map[string][]tuple{}
+	var err error
+	var txtUnprot []string
+	parsed["txt"], txtUnprot, err = parseListTxt(outs["txt"])
+	if err == nil {
+		parsed["json"], err = parseListJSON(outs["json"], exposure)
+	}
+	if err == nil {
+		parsed["csv"], err = parseListCSV(outs["csv"])
+	}
+	if err == nil {
+		parsed["md"], err = parseListMD(outs["md"])
+	}
+	if err == nil {
+		parsed["dot"], _, err = parseListDot(outs["dot"])
+	}
+	if err != nil {
+		r.Violate("c09.parse", "c09.parse:list:unparsable", "every format parses back", err.Error(), "")
+		return nil, false, 0, nil, false
+	}
+	isBase := func(t tuple) bool { return t.Section == "base" }
+	isExpSel := func(t tuple) bool { // exposure tuples other than the repeated address lines
+		if t.Section == "base" {
+			return false
+		}
+		other := t.Dst
+		if t.Section == "ingress" {
+			other = t.Src
+		}
+		_, _, isIP := world.ParseRange(strings.Split(other, ",")[0])
+		return !isIP
+	}
+	isExpIP := func(t tuple) bool { return t.Section != "base" && !isExpSel(t) }
+	for _, f := range []string{"txt", "json", "csv", "md", "dot"} {
+		r.Ev("formats_parsed", 1)
+		r.Ev("tuples_compared", int64(len(parsed[f])))
+		compareSets(r, "base relation", wantBase, tupleSet(parsed[f], isBase), "api", f, "list-base")
+		if exposure {
+			r.Ev("exposure_tuples_compared", int64(len(tupleSet(parsed[f], isExpSel))))
+			if f != "txt" {
+				compareSets(r, "exposure entries", tupleSet(parsed["txt"], isExpSel), tupleSet(parsed[f], isExpSel), "txt", f, "list-exposure")
+			}
+			if f != "txt" && f != "dot" {
+				compareSets(r, "exposure address lines", tupleSet(parsed["txt"], isExpIP), tupleSet(parsed[f], isExpIP), "txt", f, "list-exposure-ip")
+			}
+		}
+	}
+	if exposure {
+		// txt vs API: every API entry has a tuple with the same workload, direction, connection and a peer name that mentions its selectors
+		txtExp := []tuple{}
+		for _, t := range parsed["txt"] {
+			if isExpSel(t) {
+				txtExp = append(txtExp, t)
+			}
+		}
+		if len(txtExp) != len(apiEntries) {
+			r.Violate("c09.encode", "c09.encode:list-exposure:count", fmt.Sprintf("%d exposure entries (API)", len(apiEntries)), fmt.Sprintf("%d in txt", len(txtExp)), "")
+		}
+		used := make([]bool, len(txtExp))
+		for _, ae := range apiEntries {
+			found := false
+			for i, t := range txtExp {
+				if used[i] || t.Section != ae.dir || t.Conn != ae.conn {
+					continue
+				}
+				wl, other := t.Src, t.Dst
+				if ae.dir == "ingress" {
+					wl, other = t.Dst, t.Src
+				}
+				if wl != ae.wl {
+					continue
+				}
+				if ae.e.EntireCluster != (other == "entire-cluster") {
+					continue
+				}
+				ok := true
+				if !ae.e.EntireCluster {
+					ok = repPeerMatches(other, ae.e.NsSel, ae.e.PodSel)
+				}
+				if ok {
+					used[i], found = true, true
+					break
+				}
+			}
+			if !found {
+				r.Violate("c09.encode", "c09.encode:list-exposure:api-entry-missing", "an exposure line for API entry "+ae.wl+" "+ae.dir+" "+entryStr(ae.e)+" with connection "+ae.conn, "no such line in txt", "")
+				break
+			}
+		}
+		// address lines in the exposure sections must be lines of the base relation
+		for _, t := range parsed["txt"] {
+			if isExpIP(t) {
+				if wantBase[tuple{Section: "base", Src: t.Src, Dst: t.Dst, Conn: t.Conn}.key()] == 0 {
+					r.Violate("c09.encode", "c09.encode:list-exposure-ip:not-in-base", "address lines of the exposure section repeat base connections", t.key(), "")
+					break
+				}
+			}
+		}
+		sort.Strings(wantUnprot)
+		sort.Strings(txtUnprot)
+		if strings.Join(wantUnprot, "\n") != strings.Join(txtUnprot, "\n") {
+			r.Violate("c09.encode", "c09.encode:list-unprotected:differs", strings.Join(wantUnprot, " | "), strings.Join(txtUnprot, " | "), "")
+		}
+	}
+	return want, partial, nExp, outs, true
 }
